@@ -267,6 +267,18 @@ for (L, P) in ((128, 0),):   # from a non-empty buffer (pos=20) there was no ver
             body="crate::p02::send_kind_at::<%d, %d, %d>" % (L, P, kind), unwind=130,
             inputs="write buffer len=%d, fill position=%d (concrete); %s" % (L, P, SEND_KINDS[kind]),
             bound="one send (enqueue + flush, a 2-deep coroutine nest) from the concrete state, 128/128 build", role="send_kind_at")
+CONT_LEN = {0: 2, 1: 18, 2: 19}
+C02_FIXED_QUICK = {(8, 6, 0), (24, 6, 1), (32, 13, 1), (16, 13, 0)}
+for L in SMALL_LENS:
+    for cont, dl in CONT_LEN.items():
+        for delta in (-1, 0, 1):
+            P = L - dl + delta          # the document ends one byte before / exactly at / one byte after the buffer end
+            if P < 0 or P > L:
+                continue
+            add("C02", "p02::enqueue_fixed_l%d_p%02d_c%d" % (L, P, cont), Q if (L, P, cont) in C02_FIXED_QUICK else T, 600, 8, est_gb=2,
+                body="crate::p02::enqueue_fixed_at::<%d, %d, %d>" % (L, P, cont), unwind=74,
+                inputs="write buffer len=%d, fill position=%d, the %d earlier bytes arbitrary; Reply<()> of %d bytes (fixed by the instance)" % (L, P, P, dl),
+                bound="one enqueue whose document ends %s the buffer end, small build" % ("one byte before", "exactly at", "one byte after")[delta + 1], role="enqueue_fixed_at")
 add("C02", "p02::write_init", Q, 300, 4, inputs="none (initial state of the induction)", bound="Connection::new", unwind=4)
 
 
@@ -434,6 +446,11 @@ add("C06", "p06::stream_counts_ready", Q, 1200, 16, est_gb=4, body="crate::p06::
 add("C06", "p06::stream_counts_pending", Q, 1500, 16, est_gb=5, body="crate::p06::stream_counts::<2, true>", unwind=20,
     inputs="owed reply count 0..=2 symbolic; outcomes as above; each receive future is Pending 0 or 1 times (symbolic) before completing",
     bound="real ReplyStream::poll_next polled up to 14 times")
+
+for n in (0, 1):
+    add("C06", "p06::stream_end_keeps_frames_n%d" % n, Q, 900, 10, est_gb=3, body="crate::p06::stream_end_keeps_frames::<%d>" % n, unwind=20,
+        inputs="stream owed %d final repl%s, polled to its end over a connection that holds a later exchange's frame (arbitrary non-NUL bytes) in a grown buffer" % (n, "y" if n == 1 else "ies"),
+        bound="real ReplyStream::poll_next polled %d times, small build" % (n + 1), role="stream_end_keeps_frames")
 
 def flagtxt(bits):
     return "{%s%s}" % ("oneway" if bits & 1 else "", (" " if bits & 1 and bits & 2 else "") + ("more" if bits & 2 else "")) if bits else "{plain}"
